@@ -27,7 +27,7 @@ META = {
     'quotas': {
         'quick': {'copies-compared': 200, 'containers-compared': 9000, 'mutations-applied': 5000, 'side:copy': 2000,
                   'side:original': 2000, 'mutation:ttc-nested': 200, 'mutation:tags': 300, 'mutation:extras-nested': 80,
-                  'class:highest-id-removed-before-copy': 40, 'class:copy-with-attackers': 100, 'next-ids-compared': 200, 'mutation:op:attach': 100},
+                  'class:highest-id-removed-before-copy': 40, 'class:copy-with-attackers': 100, 'next-ids-compared': 200, 'mutation:op:attach': 100, 'class:copied-inside-a-holder': 50},
         'thorough': {'copies-compared': 40000, 'containers-compared': 1000000, 'mutations-applied': 600000},
     },
 }
@@ -225,7 +225,19 @@ def _check_case(case, res, count=True):
         if g.attackers:
             res.count('class:copy-with-attackers')
     try:
-        c = copy.deepcopy(g)
+        if case.get('holder') and g.attackers:
+            # the graph is part of a larger object which references one of its attackers (and a node) first
+            holder = {'attacker': g.attackers[0], 'node': g.nodes[len(g.nodes) // 2] if g.nodes else None, 'graph': g}
+            hc = copy.deepcopy(holder)
+            c = hc['graph']
+            if count:
+                res.count('class:copied-inside-a-holder')
+            if not any(hc['attacker'] is x for x in c.attackers):
+                return ('deepcopy:holder-attacker-not-the-copys', 'the attacker copied along with the graph is not one of the copied graph\'s attackers')
+            if hc['node'] is not None and not any(hc['node'] is x for x in c.nodes):
+                return ('deepcopy:holder-node-not-the-copys', 'a node copied along with the graph is not one of the copied graph\'s nodes')
+        else:
+            c = copy.deepcopy(g)
     except Exception as exc:
         return ('deepcopy:raised-%s' % type(exc).__name__, 'copy.deepcopy raised %r' % (exc,))
     if count:
@@ -270,7 +282,7 @@ def gen_case14(rng):
         hist.append(op)
     if rng.random() < 0.3:
         hist.append(['remove_node', 10 ** 6 - 1])      # often the last node
-    return {'start': start, 'history': hist, 'seed': rng.randrange(10 ** 9)}
+    return {'start': start, 'history': hist, 'seed': rng.randrange(10 ** 9), 'holder': rng.random() < 0.3}
 
 
 def run(rng, res, tier, shard, nshards):
